@@ -225,12 +225,22 @@ def main():
 
     report = dict(property_id=pid, tier=tier, seed=seed)
     broken = []  # list of dicts(kind=..., detail=...)
+    # source drift: a changed module in the property's cone is not a violation, it escalates the exploration budgets
+    from lib import fingerprint as FP
+
+    drifted = [] if os.environ.get("VERIF_NO_ESCALATE") else FP.drift(REPO, pid)
+    report["source_drift"] = drifted
+    eff_tier = "thorough" if drifted else tier
+    if drifted:
+        log("[%s] source differs from the modelled baseline in %d place(s): %s -> correspondence and search run with thorough budgets" % (pid, len(drifted), ", ".join(drifted[:6])))
     try:
         with Lock():
             gen = regenerate()
             report["translator"] = gen
             if gen.get("status") != "ok":
                 broken.append(dict(kind="translator", detail=gen))
+            elif cfg.get("graph_tie") and gen.get("graph", {}).get("status") != "ok":
+                broken.append(dict(kind="translator", detail=dict(layer="graph.py decision expressions (py2lean_graph.py)", **gen.get("graph", {}))))
             thms = theorem_index(cfg["theorem_files"])
             report["obligations"] = len(thms)
             discharged = 0
@@ -275,7 +285,7 @@ def main():
             continue
         try:
             mod = importlib.import_module(modname)
-            r = getattr(mod, fn)(seed=seed, tier=tier, **{k: v for k, v in kw.items() if k != "needs_driver"})
+            r = getattr(mod, fn)(seed=seed, tier=eff_tier, **{k: v for k, v in kw.items() if k != "needs_driver"})
         except Exception as e:
             traceback.print_exc()
             r = dict(ok=False, error="%s: %s" % (type(e).__name__, e), cases=0)
@@ -289,10 +299,10 @@ def main():
     violations = []
     known_lines = []
     search_res = None
-    if broken or tier == "thorough" or cfg.get("always_search"):
+    if broken or tier == "thorough" or drifted or cfg.get("always_search"):
         try:
             mod = importlib.import_module(cfg["search"][0])
-            search_res = getattr(mod, cfg["search"][1])(seed=seed, tier=tier, broken=broken)
+            search_res = getattr(mod, cfg["search"][1])(seed=seed, tier=eff_tier, broken=broken)
             for wz in search_res.get("found", []):
                 wz.setdefault("seed", seed)
                 wz.setdefault("tier", tier)
@@ -343,6 +353,7 @@ def main():
         translator=dict(status=report.get("translator", {}).get("status"), defs=report.get("translator", {}).get("defs")),
         search=report.get("search"),
         broken=[b.get("kind") for b in broken],
+        source_drift=drifted,
         proved_level=cfg.get("proved_level", "full"),
         unproved_clauses=cfg.get("unproved", []),
     )
